@@ -297,11 +297,31 @@ func c07One(sc *c07Scn, idx int) verdict {
 		// the same driver object is opened again: a new session that works, and closes, like the first one
 		var oerr, cerr error
 
+		reopenMode := ""
+
+		if s.nd != nil {
+			// bring the first session to the default desired level, so that the driver's cached level equals it
+			_, _ = s.nd.SendCommand("show z8")
+		}
+
 		fin, pan := withWatchdog(6*time.Second, func() {
 			switch {
 			case s.nd != nil:
+				// the new session starts at the login level again, whatever level the previous one had reached
+				s.pipe.Lock()
+				s.cli.Mode = "exec"
+				s.pipe.Unlock()
+
 				if oerr = s.nd.Open(); oerr == nil {
-					_, cerr = s.nd.Driver.SendCommand("show v7")
+					if _, cerr = s.nd.SendCommand("show v7"); cerr == nil {
+						s.pipe.Lock()
+						for _, r := range s.cli.Log {
+							if r.Line == "show v7" {
+								reopenMode = r.Mode
+							}
+						}
+						s.pipe.Unlock()
+					}
 				}
 			case s.gd != nil:
 				if oerr = s.gd.Open(); oerr == nil {
@@ -321,6 +341,8 @@ func c07One(sc *c07Scn, idx int) verdict {
 			fail(&v, sigBase+":reopen-panics", "Open after Close panicked: %v", pan)
 		case oerr != nil || cerr != nil:
 			fail(&v, sigBase+":reopen-fails", "after Close: Open -> %v, first operation -> %v", oerr, cerr)
+		case s.nd != nil && reopenMode != "privilege-exec":
+			fail(&v, sigBase+":reopen-stale-privilege-level", "the first command of the second session ran at level %q, the default desired level is privilege-exec", reopenMode)
 		}
 
 		if v.OK {
